@@ -168,6 +168,43 @@ def check_history(case, outs, res, nblocks, singletons=()):
     return True
 
 
+def halted_by_api_cases(res):
+    """"once a run has halted ... it ignores every further event": a run halted through the PUBLIC `BoboRun.halt()` (an
+    application cancelling a partial match; nothing in the project calls it) stays halted and where it is, whatever comes
+    next -- local events that would match its next block, a peer's update that is ahead of it, a peer's update behind it."""
+    from harness.drive_decider import RealDecider
+    P = gp.pattern
+    phens = [('ph', [P('p', ['0000'] * 4, [['eq:0'], ['eq:1'], ['eq:2'], ['eq:3']]),
+                     P('s', ['0000', '0100', '0000'], [['eq:0'], ['eq:1'], ['eq:2']], singleton=True)])]
+    h = lambda n: ';'.join(f'g{i}=z{i}:{i}:s:{i}' for i in range(n))      # noqa
+    for pat in ('p', 's'):
+        for cache in (0, 1000):
+            for later in (['ev e5 5 s 1', 'ev e6 6 s 2'], [f'rem U r0|ph|{pat}|2|{h(2)}', 'ev e5 5 s 2'],
+                          [f'rem U r0|ph|{pat}|3|{h(3)}'], [f'rem U r0|ph|{pat}|1|{h(1)}', 'ev e5 5 s 1'],
+                          [f'rem U fZ|ph|{pat}|2|{h(2)}', 'ev e5 5 s 2']):
+                rd = RealDecider(phens, cache)
+                rd.do('ev e0 0 s 0')
+                runs = [r for r in rd.dec.all_runs() if r.pattern.name == pat]
+                case = {'halted_by_api': True, 'pattern': pat, 'cache': cache, 'later': later}
+                res.add_case(case, nontrivial=True)
+                res.count('halted_by_api')
+                if len(runs) != 1:
+                    continue
+                run = runs[0]
+                run.halt()
+                before = (run.block_index, pl.show_hist(run.history()))
+                for op in later:
+                    rd.do(op)
+                    now = (run.block_index, pl.show_hist(run.history()))
+                    if not run.is_halted():
+                        res.violations.append(Violation('halted-run-live-again', f"a run halted through BoboRun.halt() is live again after {op[:70]}", case))
+                        break
+                    if now != before and op.startswith('ev '):
+                        res.violations.append(Violation('halted-run-accepted-event', f"a run halted through BoboRun.halt() moved {before} -> {now} on {op}", case))
+                        break
+                    before = now          # (what a peer's record does to the stored position is not "an event")
+
+
 def fail(res, case, k, sig, what):
     res.violations.append(Violation(sig, f"{what} (step {k}: {case.ops[k][:80]})", {**case.to_json(), 'failing_step': k}))
     return False
@@ -319,6 +356,8 @@ def run(ctx: Ctx) -> Result:
                     f"{bad[0][:90]} -> {bad[1][:90]}", {**case.to_json(), 'quiet': True}))
     finally:
         RealDecider.__init__ = orig_init
+    if ctx.replay is None or ctx.replay.get('replay', {}).get('halted_by_api'):
+        halted_by_api_cases(res)
     # "announced exactly once by the instance that finished it" when the SAME run is finished by a peer and locally at the same
     # moment: the peer's notification is applied by the distributed thread while the engine thread processes the datum
     # that finishes the local copy (real engines + replication, the engine's cycle injected where the distributed thread
@@ -342,7 +381,7 @@ def search(ctx: Ctx) -> Result:
 
 
 SPEC = PropSpec(
-    prop='C12', translators=['deciderfrag'], run=run, search=search,
+    prop='C12', extra_props=['C12All'], translators=['deciderfrag'], run=run, search=search,
     rule='adaptive histories of 8-40 operations on one real decider mixing local events with remote updates derived from its '
          'current table (ahead / equal / behind / finished / stale / merged / duplicated / unknown pattern / foreign id), over random '
          'and loop/optional/singleton pattern sets with finished-run memory 0/8/1000 (memory-dependent clauses checked with 1000), plus sampled exhaustive C01 local streams; '
